@@ -1049,6 +1049,9 @@ Proof.
   replace (45 <? length p)%nat with false by (symmetry; apply Nat.ltb_ge; lia).
   replace (length g <? length p)%nat with false by (symmetry; apply Nat.ltb_ge; lia).
   rewrite (bid_uu_chars_ok (length p) g (10 :: after)); [|apply uu_groups_ok; exact Hp|lia].
+  (* the zero-length-line variant does not apply: the line carries length p >= 1 bytes *)
+  replace (length p =? 0)%nat with false by (symmetry; apply Nat.eqb_neq; lia).
+  rewrite andb_false_r. cbn [andb].
   rewrite Et.
   destruct (length g - length p =? 1)%nat eqn:E1.
   - (* exactly one character left: taken as a check sum *)
@@ -1102,6 +1105,11 @@ Proof.
   assert (NE : exists x y, b64_groups p ++ 10 :: after = x :: y) by (rewrite Eg; eexists; eexists; reflexivity).
   destruct NE as (x & y & ENE). revert GL SK BC. rewrite ENE. intros GL SK BC.
   rewrite GL, SK. replace (S (length (b64_groups p)) - 1)%nat with (length (b64_groups p)) by lia.
+  (* the "====" variant does not apply: the line starts with an alphabet character *)
+  assert (SW : starts_with [61; 61; 61; 61] (x :: y) = false).
+  { rewrite Eg in ENE. cbn [app] in ENE. inversion ENE; subst x y.
+    cbn [starts_with]. rewrite N.eqb_sym, (eqb_61_false _ Nc). reflexivity. }
+  rewrite SW, andb_false_r.
   rewrite BC. cbn [skipn].
   destruct (starts_with [61; 61; 61; 61; 10] after && (5 <=? length after)%nat) eqn:E1; [right; reflexivity|].
   destruct (starts_with [61; 61; 61; 61; 13; 10] after && (6 <=? length after)%nat) eqn:E2; [right; reflexivity|].
